@@ -1,5 +1,5 @@
 (** C13 — Peak-only series conserve total variation; equivalent-cycle measures are inverse (statements; proofs in P_C13).
-    Models: model/M_cycles.v ([delta_series], [pseudo_series], [tv], [sgn_final], [n_cyc_R], [cyc_amp_R], [cyc_amp_combined_R],
+    Models: model/M_cycles.v ([delta_series], [pseudo_series], [tv], [sgn_final], [n_cyc_R], [n_cyc_interp_R], [cyc_amp_R], [cyc_amp_combined_R],
     [cyc_amp_gm_R], [rpow]); [peaks], [switched_peaks], [first_up], [sgn_first] are in model/M_peaks.v.
     "Non-constant series" is the guard [first_up xs <> None] (the implementation raises IndexError on a constant series). *)
 From Coq Require Import Reals List Lia Lra Bool.
@@ -90,16 +90,44 @@ Theorem C13_amp_scales : forall k ncyc b (xs : list R), 0 < k -> 0 < ncyc -> b <
   cyc_amp_R ncyc b (map (Rmult k) xs) = map (Rmult k) (cyc_amp_R ncyc b xs).
 Proof. intros k ncyc b xs Hk. now apply P_C13.C13_amp_scales. Qed.
 (** cycles are invariant when record and reference amplitude scale together.  Guard: the cut-off replaces no switched peak
-    (the replacement value 1e-14 is absolute, so with replaced peaks the two counts differ by terms of order (1e-14/a_ref)^(1/b)) *)
+    (the replacement value 1e-14 is absolute, so with replaced peaks the two counts differ by terms of order (1e-14/a_ref)^(1/b));
+    stated here with the guard on both records (original form); the guard on the scaled record is redundant, see
+    C13_no_cut_scale / C13_ncyc_joint_scale_single_guard below *)
 Theorem C13_ncyc_joint_scale : forall k a_ref b cut (xs : list R), 0 < k -> no_cut cut xs -> no_cut cut (map (Rmult k) xs) ->
   n_cyc_R (k * a_ref) b cut (map (Rmult k) xs) = n_cyc_R a_ref b cut xs.
 Proof. intros k a_ref b cut xs Hk. now apply P_C13.C13_ncyc_joint_scale. Qed.
+(** the second guard follows from the first: for k > 0 the cut-off limit cut*max|x| and every switched-peak magnitude scale
+    by k together, so [no_cut] is invariant under positive scaling; hence the single-guard form *)
+Theorem C13_no_cut_scale : forall k cut (xs : list R), 0 < k -> (no_cut cut xs <-> no_cut cut (map (Rmult k) xs)).
+Proof. intros k cut xs Hk. now apply P_C13.no_cut_scale. Qed.
+Theorem C13_ncyc_joint_scale_single_guard : forall k a_ref b cut (xs : list R), 0 < k -> no_cut cut xs ->
+  n_cyc_R (k * a_ref) b cut (map (Rmult k) xs) = n_cyc_R a_ref b cut xs.
+Proof. intros k a_ref b cut xs Hk. now apply P_C13.C13_ncyc_joint_scale_1. Qed.
 Theorem C13_ncyc_joint_scale_cut0 : forall k a_ref b (xs : list R), 0 < k ->
   n_cyc_R (k * a_ref) b 0 (map (Rmult k) xs) = n_cyc_R a_ref b 0 xs.
 Proof. exact P_C13.C13_ncyc_joint_scale_0. Qed.
 (** the switched-peak list itself is invariant under positive scaling *)
 Theorem C13_switched_peaks_scale : forall k (xs : list R), 0 < k -> switched_peaks 0 (map (Rmult k) xs) = switched_peaks 0 xs.
 Proof. intros k xs Hk. now apply P_C13.switched_peaks_scale. Qed.
+(** * the cycle counter of the code is a step function: interp1d(kind='previous') over the knots [0, p_0 .. p_k-1, n] with
+    values [0, c_0 .. c_k-1, c_k-1] (c = cumsum of the per-peak fractions), sampled at 0 .. n-1.  [n_cyc_interp_R]
+    (model/M_cycles.v: [np_insert], [knots_le] = searchsorted, [interp_previous], [n_cyc_core_interp]) transcribes that
+    pipeline statement by statement; it equals the running-sum model [n_cyc_R] used everywhere else, for every input
+    (the switched peaks are strictly ascending and < n by C12).  What remains for the correspondence check is that the
+    literal pipeline is the code. *)
+Theorem C13_interp_previous_def : forall (xk : list nat) (yk : list R) q,
+  interp_previous xk yk q = nth (Nat.min (knots_le xk q - 1) (length xk - 1)) yk 0.
+Proof. reflexivity. Qed.
+(** [knots_le] is searchsorted on strictly ascending knots: the number of knots <= q *)
+Theorem C13_knots_le_count : forall idx q, ascending idx -> knots_le idx q = length (filter (fun p => Nat.leb p q) idx).
+Proof. exact P_C13.knots_le_count. Qed.
+Theorem C13_interp_previous_is_running_sum : forall n idx (vals : list R),
+  ascending idx -> (forall p, In p idx -> (p < n)%nat) -> length idx = length vals ->
+  let c := cumsum vals in
+  map (interp_previous (0%nat :: idx ++ [n]) (0 :: c ++ [last (0 :: c) 0])) (seq 0 n) = cumsum (scatter 0 n idx vals).
+Proof. exact P_C13.interp_previous_cumsum. Qed.
+Theorem C13_ncyc_interp_eq : forall a_ref b cut (xs : list R), n_cyc_interp_R a_ref b cut xs = n_cyc_R a_ref b cut xs.
+Proof. exact P_C13.C13_ncyc_interp_eq. Qed.
 (** two identical components: 2^b times (combined) or exactly (geometric mean) the single-component amplitude *)
 Theorem C13_combined_identical : forall ncyc b (xs : list R), 0 < ncyc ->
   cyc_amp_combined_R ncyc b xs xs = map (Rmult (rpow 2 b)) (cyc_amp_R ncyc b xs).
@@ -129,6 +157,9 @@ Proof.
   split; [unfold tv, nsum; cbn; numR; rewrite (Rabs_pos_eq (1 - 1)), (Rabs_pos_eq (2 - 1)), (Rabs_left1 (1 - 2)) by lra; lra|].
   unfold sgn_final, final_start, pstart, xat. cbn [length seq filter nth]. numR. eval_R; cbn; numR; eval_R; lra.
 Qed.
+Example C13_interp_nonvacuous :
+  map (interp_previous [0; 0; 2; 4]%nat [0; 1; 3; 3]) (seq 0 4) = [1; 1; 3; 3] /\ knots_le [0; 0; 2; 4]%nat 1 = 2%nat.
+Proof. split; reflexivity. Qed.
 Example C13_inverse_nonvacuous : no_cut 0 [0; 2; -1]%R /\ exists p, In p (switched_peaks 0 [0; 2; -1]%R) /\ xat [0; 2; -1]%R p <> 0.
 Proof.
   split; [apply P_C13.no_cut_0|]. exists 1%nat.
